@@ -3,6 +3,7 @@ import Esp.Model.Noise
 import Esp.Model.SymAead
 import Esp.Spec.Wire
 import Driver.Util
+import Driver.Conv
 /-!
 # Line-protocol driver
 
@@ -118,7 +119,7 @@ def step (st : St) (line : String) : St × String :=
       | .error e => (st, s!"psk err:{showNoiseErr e}")
   | ["noise.eof"] =>
     let r := Noise.eofReceived st.noise.st; ({ st with noise := { st.noise with st := r.1 } }, showNoise r)
-  | _ => (st, "bad-op")
+  | ws => if (ws.head?.getD "").startsWith "conv." then (st, convStep ws) else (st, "bad-op")
 
 partial def loop (h : IO.FS.Stream) (out : IO.FS.Stream) (st : St) : IO Unit := do
   let line ← h.getLine
